@@ -239,9 +239,44 @@ def _cause(kind, seq, t, immediate, reasons, **kw):
 def check_session_events(h, f=None, expect_liveness=True):
     f = f or Facts(h)
     out = []
+    for sid, s in f.sess.items():
+        v = _session_events(h, f, sid, s, expect_liveness)
+        if v:
+            race = _disconnect_all_during_connect(h, f, sid, s)
+            if race:
+                # every anomaly of this session has the one mechanism
+                v = [V('connect-first',
+                       '%s|disconnect-all-during-connect' % f.impl, race)]
+        out.extend(v)
+    return out
+
+
+def _disconnect_all_during_connect(h, f, sid, s):
+    """Server.disconnect() without a sid that closed a session between its
+    entry into the table and the call of its connect handler (threads, line
+    granularity only): the application sees disconnect, then connect."""
+    if not s['connect'] or not s['disconnect']:
+        return None
+    ec, ed = s['connect'][0], s['disconnect'][0]
+    if not (ed['seq'] < ec['seq'] and ed['arg'] == 'server disconnect'):
+        return None
+    for a in h.world.api_calls:
+        if a['name'] == 'disconnect' and 'sid' not in a and \
+                a['seq_start'] is not None and a['seq_start'] < ec['seq'] \
+                and (a['seq_end'] is None or a['seq_end'] > ed['seq']):
+            return ('Server.disconnect() called at t=%.4f closed session %s '
+                    'after _handle_connect had put it into the table and '
+                    'before its connect handler ran: the application got '
+                    '%r' % (a['t_start'], sid,
+                            [e['ev'] for e in s['events']][:4]))
+    return None
+
+
+def _session_events(h, f, sid, s, expect_liveness):
+    out = []
     impl = f.impl
     slack = 0.05 + f.handler_sleep
-    for sid, s in f.sess.items():
+    for _once in (0,):
         evs = s['events']
         # connect first, exactly once
         if evs[0]['ev'] != 'connect':
@@ -505,7 +540,7 @@ def outcome(h, violations, probes=None, nontrivial=True, extra=None):
     return {
         'violations': violations,
         'probes': pr,
-        'faults': dict(h.world.faults),
+        'faults': dict(h.world.faults, **h.world.k.line_faults()),
         'sim_s': h.final['now'],
         'digest': h.digest,
         'sched_digest': h.sched_digest,
